@@ -48,13 +48,17 @@ def collect(F, prop=None):
     return out
 
 
-def run_k2(F, rep, prop, rule):
-    """arm the frozen sibling partitions of this property's targets"""
+def run_k2(F, rep, prop, rule, semantic=None):
+    """arm the frozen sibling partitions of this property's targets.
+    semantic(key, part) -> {variant: behaviour text} or None: an optional decision procedure that classifies the arms by what they COMPUTE (e.g. concrete evaluation
+    over a finite table) instead of by their text; where it decides every arm, its partition is compared with the frozen one, so an arm rewritten in another but
+    equivalent form (iterator pipeline -> counted loop) is still a sibling, and an arm that computes something else is still deviant."""
     rep.rule(rule, "deviant sibling (K2): per-variant arms of the listed functions keep their frozen co-classification (one arm edited differently from its siblings is reported)")
     got = collect(F, prop)
     ref = k2.load_ref()
     want = len([t for t in TARGETS if t[4] == prop and (("%s::%s" % (t[1], t[2])) if t[1] else t[2]) in ref])
     for key, part, where in got:
         if key in k2.load_ref():
-            k2.check(rep, rule, key, part, where)
+            sem = semantic(key, part) if semantic else None
+            k2.check(rep, rule, key, sem if sem is not None else part, where)
     rep.floor(rule, "sibling-partition targets found", len([g for g in got if g[0] in k2.load_ref()]), want)
